@@ -928,8 +928,10 @@ impl Model {
             adm.done = adm.ended && adm.closed;
             return;
         }
-        if outcome == AOutcome::Panic {
-            // not polled again; its span lives until the adapter is dropped
+        if outcome == AOutcome::Panic && adm.kind == AKind::Future {
+            // a future is not polled again after it panicked; its span lives until the adapter is
+            // dropped. A stream or sink stays in use: a panic is neither its end nor its close,
+            // so the span stays bound to it.
             adm.done = true;
         }
         if finishing {
